@@ -258,6 +258,41 @@ pub fn gen(out: &mut crate::gen::Out, rng: &mut Rng, thorough: bool) {
         let s = "x".repeat(len);
         out.job(move || wasmqr_line(&s));
     }
+    // every setter called twice: valid then malformed, and malformed then valid (a malformed call must
+    // neither trap nor disturb what an earlier valid call set)
+    {
+        let good_c = "#336699";
+        let pairs: Vec<(WOp, Vec<WOp>)> = vec![
+            (WOp::ModuleColor(good_c.into()), COLOURS.iter().map(|c| WOp::ModuleColor((*c).into())).collect()),
+            (WOp::BackgroundColor(good_c.into()), COLOURS.iter().map(|c| WOp::BackgroundColor((*c).into())).collect()),
+            (WOp::ImageBgColor(good_c.into()), COLOURS.iter().map(|c| WOp::ImageBgColor((*c).into())).collect()),
+            (
+                WOp::ImagePosition(vec![10.0, 12.0]),
+                vec![vec![], vec![1.0], vec![3.0, 4.0, 5.0], vec![1.0, 2.0, 3.0, 4.0], vec![7.5, 8.25]]
+                    .into_iter()
+                    .map(WOp::ImagePosition)
+                    .collect(),
+            ),
+        ];
+        for (good, bads) in pairs {
+            for bad in bads {
+                for order in 0..2 {
+                    let mut ops = vec![WOp::Image("logo.png".into())];
+                    if order == 0 {
+                        ops.push(good.clone());
+                        ops.push(bad.clone());
+                    } else {
+                        ops.push(bad.clone());
+                        ops.push(good.clone());
+                    }
+                    if rng.chance(1, 2) {
+                        ops.push(WOp::ImageSize(6.0, 1.0));
+                    }
+                    out.job(move || wasm_line("https://example.com/", &ops));
+                }
+            }
+        }
+    }
     for _ in 0..(if thorough { 30000 } else { 1200 }) {
         let content: String = if rng.chance(1, 6) {
             // sometimes beyond capacity
